@@ -8,6 +8,14 @@ COMMON_TB = [
 ]
 
 PROPS = {
+    "C12": {
+        "proof_modules": [],
+        "theorems": [],
+        "suites": ["cmp"],
+        "rule": "tbd",
+        "trusted_base": COMMON_TB,
+        "assumptions": [],
+    },
     "C20": {
         "proof_modules": ["GrolProofs.Props.C20"],
         "theorems": ["Grol.Trie.C20.contains_iff", "Grol.Trie.C20.prefixAll_spec", "Grol.Trie.C20.complete_sound",
